@@ -348,6 +348,7 @@ def run_asl(bdir, wd, files, opts):
     if opts["gnu"]:
         args.append("-gnuerrors")
     args += ["-x"] * opts["x"]
+    args += opts.get("extra", [])
     ch = opts["chan"]
     if ch == "file":
         args += ["-E", "err.log"]
@@ -424,7 +425,7 @@ def calibrate(bdir, wd, nums):
         m = NUM_RE.search(r["prefix"])
         if m:
             txt[int(m.group(1))] = r["text"]
-    files2 = {"main.asm": " cpu z80\n ld a,undefx\n"}
+    files2 = {"main.asm": " cpu z80\nzz equ 1\n ld a,undefx\n shared zz\n ds 0\n db -1 dup (1)\n"}
     rc, text2, _ = run_asl(bdir, os.path.join(wd, "calib2"), files2, dict(numeric=True, gnu=False, x=0, chan="file"))
     for r in parse_channel(text2, False):
         m = NUM_RE.search(r["prefix"])
@@ -445,7 +446,8 @@ def calibrate(bdir, wd, nums):
 
 def gen_expect(rng, nums):
     E, NN, ME, MX = nums["errExpectedError"], nums["errNoNestExpect"], nums["errMissingENDEXPECT"], nums["errMissingEXPECT"]
-    occ_pool = [nums["errUnknownInstruction"], nums["errWrongArgCnt"], nums["errOverRange"]]
+    occ_pool = [nums["errUnknownInstruction"], nums["errWrongArgCnt"], nums["errOverRange"],
+                nums["errUnknownInstruction"], nums["errNoShareFile"], nums["errNullResMem"], nums["errNegDUP"]]
     ann_pool = occ_pool * 4 + [9999, 77, nums["errSymbolUndef"], NN, MX, ME]
     evs = []
     blocks = []   # (index of expect event, index of endexpect event) of well-formed blocks
@@ -482,7 +484,7 @@ def gen_expect(rng, nums):
 
 
 def expect_source(evs, nums):
-    lines = [" cpu z80"]
+    lines = [" cpu z80", "zz equ 1"]
     ev_line = {}
     for i, e in enumerate(evs):
         if e[0] == "E":
@@ -490,7 +492,8 @@ def expect_source(evs, nums):
         elif e[0] == "X":
             lines.append(" endexpect")
         else:
-            lines.append({nums["errUnknownInstruction"]: " bogus", nums["errWrongArgCnt"]: " ld a,b,c", nums["errOverRange"]: " ld a,1000"}[e[1]])
+            lines.append({nums["errUnknownInstruction"]: " bogus", nums["errWrongArgCnt"]: " ld a,b,c", nums["errOverRange"]: " ld a,1000",
+                          nums["errNoShareFile"]: " shared zz", nums["errNullResMem"]: " ds 0", nums["errNegDUP"]: " db -1 dup (1)"}[e[1]])
         ev_line[len(lines)] = i
     return "\n".join(lines) + "\n", ev_line
 
@@ -539,7 +542,7 @@ def run(args):
     with common.Workdir("c20") as wd:
         txt, fixed, calib_text = calibrate(bdir, wd, nums)
         need = [nums[k] for k in ("errUnknownInstruction", "errWrongArgCnt", "errOverRange", "errSymbolUndef", "errExpectedError",
-                                  "errNoNestExpect", "errMissingENDEXPECT", "errMissingEXPECT")]
+                                  "errNoNestExpect", "errMissingENDEXPECT", "errMissingEXPECT", "errNoShareFile", "errNullResMem", "errNegDUP")]
         if fixed is None or any(n not in txt for n in need):
             spec_fail.append(dict(tag="calibration", why="the calibration program did not produce the expected messages (numbers %s; IRP probe %s)" % (
                 [n for n in need if n not in txt], fixed), output=calib_text[:3000]))
@@ -672,7 +675,9 @@ def run(args):
             evs, blocks = gen_expect(rng, nums)
             src, ev_line = expect_source(evs, nums)
             gnu = int(rng.random() < 0.3)
-            opts = dict(gnu=gnu, numeric=True, x=1, chan=rng.choice(["file", "!1", "!2"]))
+            # the options that hide messages AFTER the EXPECT lookup: -w (warnings), +G (no code: "unknown instruction")
+            hw, hg = rng.choice([(0, 0), (0, 0), (1, 0), (1, 0), (0, 1), (1, 1)])
+            opts = dict(gnu=gnu, numeric=True, x=1, chan=rng.choice(["file", "!1", "!2"]), extra=["-w"] * hw + ["+G"] * hg)
             pdir = os.path.join(wd, "x%d" % i)
             rc, text, cmd = run_asl(bdir, pdir, {"main.asm": src}, opts)
             recs = parse_channel(text, bool(gnu))
@@ -703,8 +708,9 @@ def run(args):
                     toks_real.append("x%d@%d" % (n2, evi))
                 else:
                     toks_real.append("m%d@%d" % (num, evi))
-            xreqs.append("%s %s" % (",".join(toks_real) or "-", " ".join(ev_tok(e) for e in evs)))
-            xmetas.append(dict(tag="expect:%d" % i, source=src, cmd=cmd, evs=evs, blocks=blocks, toks=toks_real, bad=bad,
+            xreqs.append("h%d%d %s %s" % (hw, hg, ",".join(toks_real) or "-", " ".join(ev_tok(e) for e in evs)))
+            k_ = "expect_options:" + ("-w" * hw + "+G" * hg or "none"); dist[k_] = dist.get(k_, 0) + 1
+            xmetas.append(dict(tag="expect:%d" % i, source=src, cmd=cmd, evs=evs, blocks=blocks, toks=toks_real, bad=bad, hide="h%d%d" % (hw, hg),
                                channel=[r["prefix"] + r["text"] + " | " + " ".join(r["ext"]) for r in recs][:30]))
         xans = common.driver("c20x", xreqs, timeout=600) if drv_ok and xreqs else []
         breqs, bmetas = [], []
@@ -742,7 +748,7 @@ def run(args):
                 if -1 in R:
                     spec_fail.append(dict(why="unexpected message inside a well-formed EXPECT block (events %d..%d)" % (s, e), **payload))
                     continue
-                breqs.append("%s %s %s %s" % (j(A), j(O), j(R), j(M)))
+                breqs.append("%s %s %s %s %s" % (j(A), j(O), j(R), j(M), meta["hide"]))
                 bmetas.append((payload, s, e))
             distinct.add("X " + " ".join(ev_tok(e) for e in meta["evs"]))
             if len(samples) < 5 and len(meta["toks"]) >= 3 and a.get("model") == "eq":
